@@ -25,7 +25,9 @@ type Emit struct {
 	// Kind: "ok" (the Idx-th requested block), "dup" (again the Idx-th requested
 	// block), "unrequested" (pool block Idx that was not asked for), "badcid" (a
 	// block with a CID that validators reject), "corrupt" (the Idx-th requested
-	// CID with bytes that do not hash to it).
+	// CID with bytes that do not hash to it), "alias" (the bytes of the Idx-th
+	// requested block under a CID with the same multihash but another codec or
+	// version, which was not asked for).
 	Kind string `json:"k"`
 	Idx  int    `json:"i"`
 }
@@ -115,6 +117,24 @@ func (e *Exchange) produce(em Emit, req []cid.Cid) blocks.Block {
 			return nil
 		}
 		return e.Bad[em.Idx%len(e.Bad)]
+	case "alias":
+		if len(req) == 0 {
+			return nil
+		}
+		c := req[em.Idx%len(req)]
+		orig := e.find(c)
+		if orig == nil {
+			return nil
+		}
+		codec := uint64(cid.DagProtobuf)
+		if c.Prefix().Codec == cid.DagProtobuf {
+			codec = cid.Raw
+		}
+		b, err := blocks.NewBlockWithCid(orig.RawData(), cid.NewCidV1(codec, c.Hash()))
+		if err != nil {
+			return nil
+		}
+		return b
 	case "corrupt":
 		if len(req) == 0 {
 			return nil
